@@ -42,7 +42,13 @@ func init() {
 	Checks["C03"] = &Check{Level: "model_checking", Run: CheckK("C03", []string{"C03.enc-checked", "ik-created"}), QuickBudget: 300, ThoroughBudget: 1800, ReplayOps: kReplay("C03")}
 	Checks["C04"] = &Check{Level: "model_checking", Run: CheckK("C04", []string{"enc", "ik-created", "C04.parent-sk-expired", "C04.parent-sk-expired-more-than-R"}), QuickBudget: 300, ThoroughBudget: 1800, ReplayOps: kReplay("C04")}
 	Checks["C05"] = &Check{Level: "model_checking", Run: CheckK("C05", []string{"C05.ik-revoked", "C05.ik-revoked-more-than-R", "C05.parent-sk-revoked", "C05.parent-sk-revoked-more-than-2R"}), QuickBudget: 300, ThoroughBudget: 1800, ReplayOps: kReplay("C05")}
-	Checks["C09"] = &Check{Level: "model_checking", Run: CheckK("C09", []string{"restart", "C09.nocache-op", "C09.bounded-cache-states"}), QuickBudget: 300, ThoroughBudget: 1800, ReplayOps: kReplay("C09")}
+	Checks["C09"] = &Check{Level: "model_checking", Run: func(r *Report) {
+		CheckK("C09", []string{"restart", "C09.nocache-op", "C09.bounded-cache-states"})(r)
+		rule := r.Rule
+		CheckF("C09", fFaults{ms: true, kms: true, aead: true, alloc: true})(r)
+		r.Level = "model_checking"
+		r.Rule = rule + " || PLUS fault space: " + r.Rule
+	}, QuickBudget: 300, ThoroughBudget: 1800, ReplayOps: kReplay("C09"), ReplayBody: fReplayBody(fFaults{ms: true, kms: true, aead: true, alloc: true})}
 }
 
 func init() {
@@ -76,6 +82,23 @@ func init() {
 
 func init() {
 	Checks["C06"] = &Check{Level: "exploration", Run: CheckC06, QuickBudget: 240, ThoroughBudget: 1500}
+}
+
+func fReplayBody(ff fFaults) func(h string) explore.Body {
+	return func(h string) explore.Body {
+		for _, sc := range fScenarios(true) {
+			if "F/"+sc.name+"/"+sc.op == h {
+				return sc.body(ff)
+			}
+		}
+		return nil
+	}
+}
+
+func init() {
+	all := fFaults{ms: true, kms: true, aead: true, alloc: true}
+	Checks["C02"] = &Check{Level: "fault_enumeration", Run: CheckF("C02", fFaults{ms: true, kms: true}), QuickBudget: 240, ThoroughBudget: 1500, ReplayBody: fReplayBody(fFaults{ms: true, kms: true})}
+	Checks["C10"] = &Check{Level: "fault_enumeration", Run: CheckF("C10", all), QuickBudget: 240, ThoroughBudget: 1500, ReplayBody: fReplayBody(all)}
 }
 
 // kReplay re-executes an operation-history counterexample of the K space.
